@@ -274,8 +274,7 @@ def main():
             len(small["ops"]), tried, klass, res.get("step"), res.get("detail", "")[:1500]))
         print("VIOLATION property=%s replay=%s" % (machine.pid, path))
         nviol_reported += 1
-        if rc == 0:
-            rc = 1
+        rc = 1        # a verified violation outranks harness errors seen in other runs of the batch
 
     executed = merged["runs"]
     if executed * 2 < nruns and rc == 0:
